@@ -89,6 +89,10 @@ def catalogue():
                          [D(("a", 1), ("b", 2)), D(("a", "3"))], [D(("a", 1), ("b", "1")), D(("a", "x"))])
     c["str-req-nodflt"] = ({"k": "Str", "o": {"required": True}}, ["v", "w"], [None, "", 5])
     c["dict-byteskey"] = ({"k": "Dict", "key": {"k": "Bytes", "o": {"encoding": "hex"}}, "val": {"k": "Int"}}, [D((Y(b"\xab\xcd"), 1)), D((Y(b"\xa0"), 2), ("k", 3))], [D((5, 1))])
+    c["dict-any-empty-dflt"] = ({"k": "Dict", "o": {"default": D()}}, [D(("k", 1))], ["x"])
+    c["dict-typed-empty-dflt"] = ({"k": "Dict", "key": {"k": "Str"}, "val": {"k": "Int"}, "o": {"default": D()}}, [D(("k", 1))], [D(("k", "x"))])
+    c["list-any-empty-dflt"] = ({"k": "List", "o": {"default": []}}, [[1]], ["x"])
+    c["list-int-empty-dflt"] = ({"k": "List", "item": {"k": "Int"}, "o": {"default": []}}, [[1]], [["x"]])
     c["dict-any-dflt"] = ({"k": "Dict", "o": {"default": D(("d", 1))}}, [D(("k", 1))], ["x"])
     c["list-any-dflt"] = ({"k": "List", "o": {"default": [1, [2]]}}, [[3]], ["x"])
     return c
